@@ -1,7 +1,7 @@
 (* Props/C07.v — pinned statements for property C07 (CborLen is exact).
    Built-in impls: names starting C07_types (this slice).  Token and derived-type theorems are added by
    other slices. *)
-From MC Require Import Bytes Monad Cbor Decoder Encoder Types TypesEnc TypesLen TypesFacts.
+From MC Require Import Bytes Monad Cbor Decoder Encoder Types TypesEnc TypesLen TypesFacts Sink LenBuffer.
 Local Open Scope N_scope.
 
 (* For every well-formed descriptor t and every value v the encoder accepts, the computed length is
@@ -9,6 +9,14 @@ Local Open Scope N_scope.
 Theorem C07_types : forall t v cs,
   ty_ok t = true -> encode_ty t v = Some cs -> len_ty t v = len (flat cs).
 Proof. exact len_ty_is_exact. Qed.
+
+(* Consequently, for every bounded sink kind (byte slice, the three cursors): a sink of exactly len_ty t v
+   bytes accepts the whole encoding, and any smaller sink refuses it (run_sink: Model/Sink.v, C13). *)
+Theorem C07_buffer : forall k t v cs, bounded k = true -> ty_ok t = true -> encode_ty t v = Some cs ->
+  fst (run_sink (sink_new k (len_ty t v)) cs) = true
+  /\ s_written (snd (run_sink (sink_new k (len_ty t v)) cs)) = flat cs
+  /\ (forall cap, cap < len_ty t v -> fst (run_sink (sink_new k cap) cs) = false).
+Proof. exact len_buffer. Qed.
 
 Example C07_types_example :
   ty_ok rt_example_ty = true /\
@@ -19,3 +27,4 @@ Example C07_types_example :
 Proof. vm_compute. auto. Qed.
 
 Print Assumptions C07_types.
+Print Assumptions C07_buffer.
